@@ -477,10 +477,13 @@ class YieldInjector(object):
     statements of the code under test and counts switches seen there."""
     TOOL = 3
 
-    def __init__(self, p, seed):
+    def __init__(self, p, seed, focus=None, p_focus=0.3):
         import random
         self.mon = sys.monitoring
         self.p = p
+        self.focus = focus          # file name fragment: statements of that file yield with probability p_focus
+        self.p_focus = p_focus
+        self.max_yields = 40000
         self.rng = random.Random(seed)
         self.root = env.repo_path() + os.sep
         self.last = None
@@ -515,7 +518,10 @@ class YieldInjector(object):
             if self.last is not None:
                 self.switches += 1
             self.last = t
-        if self.rng.random() < self.p:
+        if self.yields >= self.max_yields:
+            return            # logical budget: forced switches are capped per round
+        p = self.p_focus if (self.focus and self.focus in code.co_filename) else self.p
+        if self.rng.random() < p:
             self.yields += 1
             time.sleep(0)
 
